@@ -89,7 +89,7 @@ pub(crate) mod kani_verif {
     #[kani::proof]
     #[kani::stub(zeroize::optimization_barrier, no_barrier)]
     #[kani::stub(<[u8; 32] as tinyvec::Array>::default, fast_default)]
-    #[kani::unwind(40)]
+    #[kani::unwind(60)]
     fn c16_seed_types() {
         type H = Sha256_192;
         let mut s = any_seed::<H>();
